@@ -138,7 +138,9 @@ func (t *validatingTarget) Write(p []byte) (n int, err error) {
 		t.writtenPayload += uint64(n)
 	}
 
-	err = t.checkQuotaLimits(t.cachedHeader, t.writtenPayload)
+	if qErr := t.checkQuotaLimits(t.cachedHeader, t.writtenPayload); qErr != nil {
+		return n, qErr
+	}
 
 	return
 }
